@@ -165,27 +165,76 @@ func runC08(c *Ctx) {
 			return true
 		})
 		c.check(ivLen == 4, "W-CHARSTRINGIV", fname, "charstrings get four lead bytes (the default lenIV, no /lenIV is written)", fd.Pos(), fmt.Sprint(ivLen), fmt.Sprintf("charstrings are obfuscated with %d lead bytes but the template writes no /lenIV, so a decoder assumes 4", ivLen))
-		// acceptance: obf[0] > 32 and not all hex
-		okFirst, okHex := false, false
-		ast.Inspect(fd.Body, func(n ast.Node) bool {
-			ifs, ok := n.(*ast.IfStmt)
-			if !ok {
-				return true
+		// acceptance of a ciphertext: the function is evaluated on the SSA form for one glyph;
+		// the first ciphertext is the table value, the second one is acceptable for sure, so the
+		// number of obfuscation calls tells whether the first was accepted
+		fn := c.method("type1", "Font", "encodeCharstrings")
+		obfFn := c.fn("type1", "obfuscateCharstring")
+		accepts := func(first string) (bool, string) {
+			ev := &ssaEval{c: c, bind: map[ssa.Value]sv{}, mem: map[string]sv{}}
+			calls, nexts := 0, 0
+			stored := ""
+			ev.noInline = func(f *ssa.Function) bool { return f.Signature.Recv() != nil }
+			ev.load = func(ld *ssa.UnOp, addr sv) (sv, bool) {
+				return symV("v:" + addr.s), true
 			}
-			s := types.ExprString(ifs.Cond)
-			if strings.HasSuffix(s, "[0] > 32") {
-				okFirst = true
+			ev.call = func(call ssa.CallInstruction, args []sv) (sv, bool) {
+				if call == nil {
+					if len(args) > 0 && args[0].s == "next" {
+						nexts++
+						if nexts == 1 {
+							return sv{k: svTuple, tup: []sv{boolV(true), symV("name"), {k: svAddr, s: "glyph"}}}, true
+						}
+						return sv{k: svTuple, tup: []sv{boolV(false), {k: svNil}, {k: svNil}}}, true
+					}
+					return sv{}, false
+				}
+				if call.Common().StaticCallee() == obfFn {
+					calls++
+					if calls == 1 {
+						return sv{k: svString, s: first}, true
+					}
+					return sv{k: svString, s: "\x80\x80\x80\x80\x80"}, true
+				}
+				return sv{}, false
 			}
-			if v := singleByteVar(info, ifs.Cond); v != nil {
-				set, err := byteSet(info, ifs.Cond, v)
-				want := setOf(func(b int) bool { return !isHexDigit(b) })
-				if err == nil && set == want {
-					okHex = true
+			ret := ev.runFunc(fn, []sv{{k: svAddr, s: "f"}})
+			for _, ef := range ev.effects {
+				if ef.what == "mapupdate" && ef.args[1].k == svString {
+					stored = ef.args[1].s
 				}
 			}
-			return true
-		})
-		c.check(okFirst && okHex, "W-CHARSTRINGIV", fname, "lead bytes are searched until the ciphertext starts above 32 and is not all-hexadecimal in its first four bytes", fd.Pos(), "obf[0] > 32; non-hex set = complement of [0-9A-Fa-f]", fmt.Sprintf("lead-byte search: first byte above 32: %v, hexadecimal class exact: %v — `RD` data starting with white space or looking like hex would be misread", okFirst, okHex))
+			if len(ret) != 1 || calls == 0 || calls > 2 {
+				return false, fmt.Sprintf("not evaluable (%d obfuscation calls) %s", calls, ev.why)
+			}
+			if calls == 1 && stored != first || calls == 2 && stored == first {
+				return false, "the stored charstring is not the accepted ciphertext"
+			}
+			return calls == 1, ""
+		}
+		bad := ""
+		for p := 0; p < 4 && bad == ""; p++ {
+			for b := 0; b < 256; b++ {
+				w := []byte("AAAAA")
+				w[p] = byte(b)
+				got, why := accepts(string(w))
+				want := !isHexDigit(b) && (p != 0 || b > 32)
+				if why != "" {
+					bad = why
+					break
+				}
+				if got != want {
+					bad = fmt.Sprintf("a ciphertext whose byte %d is %d (the other lead bytes being hexadecimal digits) is %s", p, b, map[bool]string{true: "accepted", false: "refused"}[got])
+					break
+				}
+			}
+		}
+		if bad == "" {
+			if got, _ := accepts(" \x80\x80\x80\x80"); got {
+				bad = "a ciphertext starting with a space is accepted"
+			}
+		}
+		c.check(bad == "", "W-CHARSTRINGIV", fname, "lead bytes are searched until the ciphertext starts above 32 and is not all-hexadecimal in its first four bytes", fd.Pos(), "4 positions × 256 byte values evaluated", "lead-byte search: "+bad+" — `RD` data starting with white space or looking like hex would be misread")
 	}
 
 	c.noNarrowing()
@@ -196,81 +245,99 @@ func runC08(c *Ctx) {
 }
 
 func (c *Ctx) pfbFraming(info *types.Info) {
-	fd := c.funcDecl("type1", "Font", "Write")
+	// Font.Write is evaluated on the SSA form for Format = FormatPFB: the templates and the
+	// cipher writer are opaque (they add named content to the buffer), the buffer reports its
+	// symbolic length and content, and the sequence of writes to the destination is compared
+	// with the PFB framing.  Helper functions are evaluated in place.
+	fn := c.method("type1", "Font", "Write")
 	fname := "type1.(*Font).Write"
-	var clause *ast.CaseClause
-	ast.Inspect(fd.Body, func(n ast.Node) bool {
-		if cl, ok := n.(*ast.CaseClause); ok {
-			for _, e := range cl.List {
-				if types.ExprString(e) == "FormatPFB" {
-					clause = cl
-				}
-			}
-		}
-		return true
-	})
-	if clause == nil {
-		c.fail("W-PFB", fname, "PFB branch", fd.Pos(), "case FormatPFB not found")
-		return
+	pfb := c.constInt("type1", "FormatPFB")
+	ev := &ssaEval{c: c, bind: map[ssa.Value]sv{}, mem: map[string]sv{}}
+	var content []string
+	var writes []string
+	cur := func() string { return "<" + strings.Join(content, ",") + ">" }
+	isBuf := func(v sv) bool { return v.k == svAddr && strings.HasPrefix(v.s, "cell") }
+	ev.noInline = func(f *ssa.Function) bool { return f.Name() != "Write" || f.Signature.Recv() == nil || !strings.Contains(f.String(), "Font") }
+	ev.noInline = func(f *ssa.Function) bool {
+		// only unexported helpers without receiver are evaluated in place (e.g. a segment writer)
+		return f.Signature.Recv() != nil || f.Object() == nil || f.Object().Exported() || f.Name() == "newEExecWriter"
 	}
-	// event sequence
-	var events []string
-	var bad []string
-	ast.Inspect(clause, func(n ast.Node) bool {
-		switch n := n.(type) {
-		case *ast.AssignStmt:
-			if len(n.Rhs) == 1 {
-				s := types.ExprString(n.Rhs[0])
-				if strings.HasSuffix(s, ".Len())") && strings.HasPrefix(s, "uint32(") {
-					events = append(events, "len")
-				}
-			}
-		case *ast.CallExpr:
-			s := types.ExprString(n.Fun)
-			switch {
-			case strings.HasSuffix(s, ".ExecuteTemplate"):
-				if len(n.Args) >= 2 {
-					if name, ok := constStrOf(info, n.Args[1]); ok {
-						events = append(events, "tmpl:"+name)
-					}
-				}
-			case s == "newEExecWriter":
-				events = append(events, "eexec")
-			case strings.HasSuffix(s, ".Close"):
-				events = append(events, "close")
-			case strings.HasSuffix(s, ".Reset"):
-				events = append(events, "reset")
-			case strings.HasSuffix(s, ".Write") && len(n.Args) == 1:
-				if cl, ok := n.Args[0].(*ast.CompositeLit); ok {
-					var parts []string
-					for i, e := range cl.Elts {
-						if v, ok := constIntOf(info, e); ok {
-							parts = append(parts, fmt.Sprint(v))
-							continue
-						}
-						// byte(n >> 8k)
-						t := types.ExprString(e)
-						want := []string{"byte(n)", "byte(n >> 8)", "byte(n >> 16)", "byte(n >> 24)"}
-						if i >= 2 && i-2 < len(want) && t == want[i-2] {
-							parts = append(parts, fmt.Sprintf("L%d", i-2))
-						} else {
-							parts = append(parts, "?")
-							bad = append(bad, "length byte "+fmt.Sprint(i-2)+" is `"+t+"`")
-						}
-					}
-					events = append(events, "hdr["+strings.Join(parts, " ")+"]")
-				} else if strings.HasSuffix(types.ExprString(n.Args[0]), ".Bytes()") {
-					events = append(events, "data")
-				}
-			}
-			return true
+	ev.load = func(ld *ssa.UnOp, addr sv) (sv, bool) {
+		if strings.HasSuffix(addr.s, ".Format") {
+			return intV(pfb), true
 		}
-		return true
-	})
-	want := []string{"tmpl:SectionA", "len", "hdr[128 1 L0 L1 L2 L3]", "data", "reset", "eexec", "tmpl:SectionB", "close", "len", "hdr[128 2 L0 L1 L2 L3]", "data", "reset", "tmpl:SectionC", "len", "hdr[128 1 L0 L1 L2 L3]", "data", "hdr[128 3]"}
-	got := strings.Join(events, ", ")
-	c.check(got == strings.Join(want, ", ") && len(bad) == 0, "W-PFB", fname, "PFB framing: {128,1,LE32} text, {128,2,LE32} cipher, {128,1,LE32} trailer, {128,3}; lengths taken from the filled buffer before it is reset", clause.Pos(), "17 framing events in order",
-		"the PFB branch performs `"+got+"`; expected `"+strings.Join(want, ", ")+"` "+strings.Join(bad, "; "))
+		if strings.HasPrefix(addr.s, "global:") {
+			return sv{k: svAddr, s: addr.s[strings.LastIndex(addr.s, ".")+1:]}, true
+		}
+		return sv{}, false
+	}
+	ev.oracle = func(op token.Token, x, y sv) (bool, bool) {
+		if (x.k == svNil) != (y.k == svNil) {
+			return op == token.NEQ, true
+		}
+		return false, false
+	}
+	ev.call = func(call ssa.CallInstruction, args []sv) (sv, bool) {
+		n := callName(call)
+		switch {
+		case strings.HasSuffix(n, "template.Template).ExecuteTemplate") && len(args) == 4:
+			name := args[2].s
+			if isBuf(args[1]) {
+				content = append(content, name)
+			} else if args[1].s == "we" {
+				content = append(content, "enc("+name+")")
+			} else {
+				writes = append(writes, "template "+name+" straight to the destination")
+			}
+			return sv{k: svNil}, true
+		case strings.HasSuffix(n, "type1.newEExecWriter"):
+			if len(args) == 1 && isBuf(args[0]) {
+				content = append(content, "iv")
+			} else {
+				writes = append(writes, "cipher writer not on the buffer")
+			}
+			return sv{k: svTuple, tup: []sv{{k: svAddr, s: "we"}, {k: svNil}}}, true
+		case strings.HasSuffix(n, "eexecWriter).Close"):
+			content = append(content, "flush")
+			return sv{k: svNil}, true
+		case strings.HasSuffix(n, "bytes.Buffer).Len"):
+			return term("len", symV(cur())), true
+		case strings.HasSuffix(n, "bytes.Buffer).Bytes"):
+			return symV(cur()), true
+		case strings.HasSuffix(n, "bytes.Buffer).Reset"):
+			content = nil
+			return sv{}, true
+		case strings.HasPrefix(n, "invoke ") && strings.HasSuffix(n, ".Write") && len(args) == 2:
+			if el, ok := ev.elems(args[1]); ok {
+				var p []string
+				for _, x := range el {
+					p = append(p, strings.ReplaceAll(x.String(), "u32", ""))
+				}
+				writes = append(writes, "["+strings.Join(p, " ")+"]")
+			} else {
+				writes = append(writes, args[1].String())
+			}
+			return sv{k: svTuple, tup: []sv{symV("n"), {k: svNil}}}, true
+		case strings.HasSuffix(n, "makeTemplateData"):
+			return sv{k: svAddr, s: "info"}, true
+		}
+		return sv{}, false
+	}
+	ret := ev.runFunc(fn, []sv{{k: svAddr, s: "f"}, symV("w"), {k: svAddr, s: "opt"}})
+	seg := func(kind int, body string) []string {
+		n := "(len(" + body + "))"
+		return []string{fmt.Sprintf("[128 %d u8%s u8(>>(%s,8)) u8(>>(%s,16)) u8(>>(%s,24))]", kind, n, n[1:len(n)-1], n[1:len(n)-1], n[1:len(n)-1]), body}
+	}
+	var want []string
+	want = append(want, seg(1, "<SectionA>")...)
+	want = append(want, seg(2, "<iv,enc(SectionB),flush>")...)
+	want = append(want, seg(1, "<SectionC>")...)
+	want = append(want, "[128 3]")
+	got := strings.Join(writes, " ")
+	okRet := len(ret) == 1 && ret[0].k == svNil
+	flat := func(s string) string { return strings.NewReplacer("(", "", ")", "").Replace(s) }
+	c.check(okRet && flat(got) == flat(strings.Join(want, " ")), "W-PFB", fname, "PFB framing: {128,1,LE32} text, {128,2,LE32} cipher, {128,1,LE32} trailer, {128,3}; lengths taken from the filled buffer before it is reset", fn.Pos(), "7 writes to the destination in order",
+		"the PFB branch writes `"+got+"`; expected `"+strings.Join(want, " ")+"` "+ev.why)
 }
 
 func (c *Ctx) templateStructure(info *types.Info) {
